@@ -411,7 +411,7 @@ int main(int argc, char** argv) {
     // c-cmaes writes "actparcmaes.par" into the current directory: keep that out of the repository
     { const char* d = "/tmp/agent-C39"; mkdir(d, 0755); if (chdir(d) != 0) { /* stay where we are */ } }
     if (args.mode == "replay") { replay(); return 0; }
-    bool thorough = args.n > 400;
+    bool thorough = args.n > 1000;
     LOGCAP = 400;
     int maxN = thorough ? 20 : 8;
     // exhaustive selection table
